@@ -77,7 +77,9 @@ def prop(pid, explanation, decided, not_decided, rules, assumptions=None):
     for entry in rules:
         if entry is G_CORE[0] and 'scheduler core' not in ' '.join(decided):
             decided.append('the necessary conditions of the scheduler core that this property presupposes (one runner at a time, token released and handed on, wakers and pool resume parked queues, '
-                           'waiters notified, dead threads reaped, lock discipline, reviewed transition relation and effect order: group CORE in dsa/props.py)')
+                           'waiters notified, dead threads reaped, lock discipline, reviewed transition relation and effect order; every protocol action happens on every path that owes it '
+                           '(MUST: must-pass-through obligations, e.g. a waker cannot return before looking at the state, a taken waker is woken, a created thread is registered); every waker that is '
+                           'polled with or left in a slot comes from the caller or is one of the crate\'s own, built for the queue it runs and the thread that parks (WP): group CORE in dsa/props.py)')
         if getattr(entry[0], '__name__', '') == 'tr_base':
             decided.append('the transition relation extracted from %s is the reviewed one: no transition added, none removed (TR-base; regression rule against dsa/tr_baseline.json)'
                            % (', '.join(entry[2]) if len(entry) > 2 and entry[2] else 'every function that writes the queue state'))
